@@ -150,7 +150,7 @@ Possible(s, e) ==
       [] e.a = "Tick"        -> BatchT # 0 /\ ~s.stopped
       [] e.a = "MetaDone"    -> e.sid \in s.waiting \ s.wtimer /\ s.phase = "part"
       [] e.a = "MetaRetry"   -> e.sid \in s.waiting \cap s.wtimer /\ s.phase = "part"
-      [] e.a = "ProduceDone" -> s.phase = "sent"
+      [] e.a = "ProduceDone" -> s.phase = "sent" /\ (e.res.kind = "resp" => Len(e.res.codes) = Len(SentIdx(s)))
       [] e.a = "RetryFire"   -> s.phase = "retry"
       [] OTHER -> FALSE
 
@@ -183,10 +183,18 @@ Step(s, e) ==
            LET pl == [k \in DOMAIN s.retry |-> s.pay[s.retry[k]]] IN
            Act([s |-> [s EXCEPT !.phase = "sent", !.attempts = @ + 1], out |-> <<>>], <<"produce", pl>>)
       [] e.a = "Stop" ->
-           \* every outstanding send fails with a cancellation; nothing is transmitted afterwards; no timer remains
-           LET outstanding == SelectSeq(s.reqs \o s.q, LAMBDA i : s.st[i] # "done")
-               x1 == IF s.phase = "retry" THEN Act(st0, <<"tcancel">>) ELSE st0
-               x2 == FireAll(x1, outstanding, "fail")
+           \* The batch in flight is cancelled first.  If its produce request was with the client, the client reports
+           \* what it has (e.res): partitions already acknowledged succeed -- truthfully --, nothing is retried.
+           \* Then every send still outstanding fails with a cancellation; nothing is transmitted afterwards and
+           \* no timer of the producer remains.
+           LET idx == SentIdx(s)
+               acked == IF s.phase = "sent" /\ e.res # <<>> /\ e.res.kind = "resp" /\ Len(e.res.codes) = Len(idx)
+                        THEN SelectSeq([k \in DOMAIN idx |-> k], LAMBDA k : e.res.codes[k] = 0) ELSE <<>>
+               RECURSIVE Cat(_)
+               Cat(q) == IF q = <<>> THEN <<>> ELSE s.pay[idx[Head(q)]][3] \o Cat(Tail(q))
+               x0 == FireAll(st0, Cat(acked), "ok")
+               outstanding == SelectSeq(s.reqs \o s.q, LAMBDA i : x0.s.st[i] # "done")
+               x2 == FireAll(x0, outstanding, "fail")
            IN [s |-> [x2.s EXCEPT !.stopped = TRUE, !.active = FALSE, !.phase = "idle", !.q = <<>>, !.cnt = 0, !.bytes = 0,
                                   !.reqs = <<>>, !.pay = <<>>, !.retry = <<>>, !.waiting = {}, !.wtimer = {}], out |-> x2.out]
 
@@ -245,7 +253,7 @@ C01_once == \A i \in Sids : h.fires[i] <= 1
 \* (or, with acks disabled, from the request having been handed over)
 C01_ok_only_from_ack ==
     \A k \in DOMAIN out : out[k][1] = "fire" /\ out[k][3] = "ok" =>
-        /\ ev.a = "ProduceDone"
+        /\ ev.a \in {"ProduceDone", "Stop"} /\ ev.res # <<>>
         /\ (ev.res.kind = "empty" => Acks = 0)
         /\ (ev.res.kind = "resp" => \E j \in DOMAIN ev.res.codes : ev.res.codes[j] = 0)
 \* C09: per partition the order of sends is preserved in every payload
